@@ -59,6 +59,12 @@ def _case(draw):
         # a mode displaced already in the electronic ground state, and a very cold environment
         mode = dict(mode, shift0=draw(st.sampled_from([0.5, 1.0, -1.5])))
         spec["T"] = draw(st.sampled_from([0.1, 0.3, 1.0, 5.0, 77.0]))
+    if cond == "thermal_rdm" and draw(st.booleans()):
+        # molecules whose electronic ground state is not at zero energy (a common shift of all levels of a molecule does
+        # not change its equilibrium state), possibly in a cold environment
+        spec["ground"] = [draw(st.sampled_from([0, 100, 500, 2000])) for _ in range(n)]
+        if draw(st.booleans()):
+            spec["T"] = draw(st.sampled_from([0.3, 1.0, 5.0, 77.0]))
     # what the aggregate has been used for before the state is requested (a state is a function of the system and the
     # temperature, not of the aggregate object's history)
     uses = draw(st.lists(st.sampled_from(["diagonalize", "stR", "stR_td", "stR_sec", "stF", "cRF", "redfield_rates"]),
@@ -290,13 +296,25 @@ def _thermal_rdm(case, ctx, qr, T):
     Tenv = float(spec["T"])
     ctx.mark_nontrivial(case["mode"] is not None)
 
+    units = case["ctx"][len("units-"):] if case["ctx"].startswith("units-") else None
+    if units:
+        ctx.label("requested-in-units:" + units)
+    if spec.get("ground") and any(spec["ground"]):
+        ctx.label("thermal_rdm:ground-energy-nonzero", "T=%g" % Tenv)
+
     def run():
         agg = _make(qr, case)
         mol = agg.monomers[0]
-        rm = numpy.array(mol.get_thermal_ReducedDensityMatrix().data)
+        if units:
+            # the caller asks while other energy units are current
+            with qr.energy_units(units):
+                rm = numpy.array(mol.get_thermal_ReducedDensityMatrix().data)
+                ra = numpy.array(agg.get_thermal_ReducedDensityMatrix().data)
+        else:
+            rm = numpy.array(mol.get_thermal_ReducedDensityMatrix().data)
+            ra = numpy.array(agg.get_thermal_ReducedDensityMatrix().data)
         with qr.energy_units("int"):
             Hm = numpy.array(mol.get_Hamiltonian().data, dtype=float)
-        ra = numpy.array(agg.get_thermal_ReducedDensityMatrix().data)
         with qr.energy_units("int"):
             Ha = numpy.array(agg.get_Hamiltonian().data, dtype=float)
         return rm, Hm, ra, Ha
